@@ -27,6 +27,11 @@
 (*                   (Intended: one atomic step on the judged generation)  *)
 (*   Stall           a contender may be suspended for more than two        *)
 (*                   periods inside an acquire or a release                *)
+(* GiveUp(p): a blocking acquire (Lock under LockWithTimeout, or with a    *)
+(* cancelled context) stops polling and returns without the lock: nothing  *)
+(* on the filesystem changes.  The deviation GiveUpCleans (not in the code *)
+(* as it is; a sensitivity configuration) has the contender "clean up" by  *)
+(* running the release steps on its way out - on whatever is at the path.  *)
 (***************************************************************************)
 EXTENDS LockMonitor, Json
 
@@ -79,6 +84,16 @@ Stale1(p) ==
        THEN Goto(p, IF p \in LockProcs THEN "mkdir" ELSE "idle")    \* ErrLocked: Lock() polls, TryLock returns
        ELSE IF p \in OverrideProcs THEN Goto(p, "stale2") ELSE Goto(p, "idle")   \* ErrStaleLock
     /\ UNCHANGED <<takeover, retries, cycles, hbpc, deaths, ticks>> /\ Log(p, "Stale1")
+
+\* a polling contender gives up (time-out / cancellation) between two attempts
+GiveUp(p) ==
+    /\ alive[p] /\ pc[p] = "mkdir" /\ p \in LockProcs /\ dir # 0
+    /\ IF "GiveUpCleans" \in Deviations
+       THEN Goto(p, "u_scan") /\ takeover' = [takeover EXCEPT ![p] = FALSE] /\ retries' = [retries EXCEPT ![p] = 0]
+            /\ relStartGen' = [relStartGen EXCEPT ![p] = gen]
+            /\ UNCHANGED <<dir, hb, dirStale, hbStale, gen, creator, holds, hbOn, alive, acquiring, ownGen, decidedGen, sawStale, rechecked, lifeSince, stalled, viol>>
+       ELSE Goto(p, "idle") /\ UNCHANGED <<mvars, takeover, retries>>
+    /\ UNCHANGED <<cycles, hbpc, deaths, ticks>> /\ Log(p, "GiveUp")
 
 \* IsStale() called from ReleaseIfStale, then (as coded) the separate removal steps
 Stale2(p) ==
@@ -205,7 +220,7 @@ Die(p) ==
     /\ MDie(p) /\ deaths' = deaths + 1 /\ hbpc' = [hbpc EXCEPT ![p] = "off"]
     /\ UNCHANGED <<pc, takeover, retries, cycles, ticks>> /\ Log(p, "Die")
 
-Step(p) == StartAcquire(p) \/ Mkdir(p) \/ Stale1(p) \/ Stale2(p) \/ AtomicTakeover(p) \/ Chtimes(p)
+Step(p) == StartAcquire(p) \/ Mkdir(p) \/ GiveUp(p) \/ Stale1(p) \/ Stale2(p) \/ AtomicTakeover(p) \/ Chtimes(p)
            \/ BeginRelease(p) \/ UScan(p) \/ URmHb(p) \/ URecheck(p) \/ URmDir(p) \/ UExists(p)
            \/ HbOpen(p) \/ HbChtimes(p) \/ HbWake(p) \/ Die(p)
 
